@@ -27,6 +27,9 @@ def arg_name(f):
     return f.get("arg") or f["name"]
 
 
+SUBPOS_COUNTER = [0]
+
+
 def SH(fields, sub=None):
     return {"fields": fields, "sub": sub}
 
@@ -108,6 +111,7 @@ def rust_ty(f):
 
 
 def gen_rust():
+    SUBPOS_COUNTER[0] = 1      # deterministic: the same positions on every call
     out = ["// generated by checks/c20.py from its SHAPES table - do not edit",
            "use crate::{flag, many, opt, AtomDump};",
            "use tiny_cli::{ArgParse, Subcommand};",
@@ -122,7 +126,21 @@ def gen_rust():
         out.append("#[derive(ArgParse)]")
         out.append('#[cli(help_path = "%s")]' % hp)
         out.append("pub struct %s {" % sname)
-        for f in sh["fields"]:
+        # the declared grammar does not depend on WHERE in the struct the subcommand field is declared: its position
+        # (first / between options / last) varies from shape to shape
+        if sh["sub"] and sh["fields"]:
+            SUBPOS_COUNTER[0] += 1
+            subpos = SUBPOS_COUNTER[0] % (len(sh["fields"]) + 1)      # cycles first / between / last
+        else:
+            subpos = len(sh["fields"]) if sh["sub"] else -1
+
+        def emit_sub():
+            en = sname + "Cmd"
+            out.append("    #[cli(subcommand)]")
+            out.append("    pub sub: %s," % ("Option<%s>" % en if sh["sub"]["optional"] else en))
+        for fi, f in enumerate(sh["fields"]):
+            if fi == subpos:
+                emit_sub()
             attrs = []
             if f["long"] is not None:
                 attrs.append('long = "%s"' % f["long"])
@@ -133,10 +151,8 @@ def gen_rust():
             if attrs:
                 out.append("    #[cli(%s)]" % ", ".join(attrs))
             out.append("    pub %s: %s," % (f["name"], rust_ty(f)))
-        if sh["sub"]:
-            en = sname + "Cmd"
-            out.append("    #[cli(subcommand)]")
-            out.append("    pub sub: %s," % ("Option<%s>" % en if sh["sub"]["optional"] else en))
+        if sh["sub"] and subpos == len(sh["fields"]):
+            emit_sub()
         out.append("}")
         parts = []
         for f in sh["fields"]:
